@@ -451,14 +451,65 @@ fn mvn_affine(run: &Run) {
                     Err(e) => run.violate("MVN/sample-panic", || format!("dim {}: {}", d, e)),
                 }
             }
-            // bulk: n×d
-            for n in [0usize, 1, 3, 7] {
-                alea::set_seed(9);
+            // bulk: n×d; with scripted normals every row must be mean + L·z for its own d of the
+            // n·d normals drawn (whitening each row with the exact factor must give back the
+            // scripted normals as a multiset, whatever order the implementation draws them in)
+            let mut pool: Vec<(u64, f64)> = Vec::new();
+            let mut w = 0x2545_f491_4f6c_dd1du64;
+            while pool.len() < 12 {
+                w = w.wrapping_mul(6364136223846793005).wrapping_add(1442695040888963407);
+                let cand = w >> 11;
+                if let Some(z) = z_of(cand) {
+                    if pool.iter().all(|(_, q)| (q - z).abs() > 1e-3) {
+                        pool.push((cand, z));
+                    }
+                }
+            }
+            for n in [0usize, 1, 2, 3, 7] {
                 run.tr();
-                match guard(|| mvn.sample_n(n)) {
+                run.case();
+                let scripted = n * d <= pool.len();
+                if scripted {
+                    script::install(pool[..n * d].iter().map(|&(w, _)| Ans::Word(w)).collect(), 0);
+                } else {
+                    alea::set_seed(9);
+                }
+                let r = guard(|| mvn.sample_n(n));
+                let rep = if scripted { Some(script::uninstall()) } else { None };
+                match r {
                     Ok(m) => {
                         if (n > 0 && m.shape() != [n, d]) || m.data.len() != n * d {
                             run.violate("MVN/sample_n-shape", || format!("sample_n({}) of a {}-dimensional MVN has shape {:?}", n, d, m.shape()));
+                        } else if let Some(rep) = rep {
+                            if n == 0 {
+                                continue;
+                            }
+                            run.ok();
+                            run.nontrivial(1);
+                            // whiten: solve L z' = x − μ row by row (L is a small integer lower-triangular matrix)
+                            let mut rec: Vec<f64> = Vec::new();
+                            for i in 0..n {
+                                let mut zr = vec![0.0; d];
+                                for a in 0..d {
+                                    let mut v = m.data[i * d + a] - mu[a];
+                                    for k in 0..a {
+                                        v -= l[a * d + k] * zr[k];
+                                    }
+                                    zr[a] = v / l[a * d + a];
+                                }
+                                rec.extend(zr);
+                            }
+                            let mut want: Vec<f64> = pool[..n * d].iter().map(|&(_, z)| z).collect();
+                            rec.sort_by(|a, b| a.partial_cmp(b).unwrap_or(std::cmp::Ordering::Equal));
+                            want.sort_by(|a, b| a.partial_cmp(b).unwrap());
+                            let bad = rep.defaults > 0 || rep.consumed != n * d || rec.iter().zip(&want).any(|(a, b)| !((a - b).abs() <= 1e-12 * (d * d) as f64 * 40.0));
+                            if bad {
+                                run.outcome(&("mvn-bulk", "bad"));
+                                run.violate("MVN/sample_n-rows-not-mean-plus-L-z", || format!("dim {} factor {} sample_n({}): rows {:?}; whitened rows (sorted) {:?}, scripted normals (sorted) {:?}, {} draws consumed, {} unscripted", d, lname, n, m.data.v, rec, want, rep.consumed, rep.defaults));
+                            } else {
+                                run.outcome(&("mvn-bulk", "ok", n, d));
+                                run.regime("MVN:bulk-affine");
+                            }
                         }
                     }
                     Err(e) => {
@@ -506,7 +557,7 @@ pub fn run(run: &Run) {
         Err(e) => run.machinery_error(e),
     }
     let eps = band(run);
-    run.rule("every sampler × a parameter lattice hitting each algorithm branch; the RNG answers are enumerated: all 128 ziggurat layers × 2 signs × a refined partition of the 24-bit field, unit floats partitioned by continuation signature (gates located by bisection, value-producing draws subdivided 2^13 (2^16) fold, integer outputs split at every jump), bounded integers exhaustively; rejection bound 0 (a request beyond one loop iteration is a memoryless restart, its mass reported; loop-free samplers are declared generously (1 word, 2 units) so that a rewritten draw structure is still explored); the normalised leaf measure is compared with the reference CDF within the DKW band; two-stage samplers (Beta, T) through Q×Q quantile-reduced stage scripts run on the real composite sampler; multiplication-method Poisson path-wise against the product-of-uniforms model on all scripts of depth 6 (7) over 8 letters; MVN draws must be mean + L·z exactly; non-trivial = leaf reached through more than one draw");
+    run.rule("every sampler × a parameter lattice hitting each algorithm branch; the RNG answers are enumerated: all 128 ziggurat layers × 2 signs × a refined partition of the 24-bit field, unit floats partitioned by continuation signature (gates located by bisection, value-producing draws subdivided 2^13 (2^16) fold, integer outputs split at every jump), bounded integers exhaustively; rejection bound 0 (a request beyond one loop iteration is a memoryless restart, its mass reported; loop-free samplers are declared generously (1 word, 2 units) so that a rewritten draw structure is still explored); the normalised leaf measure is compared with the reference CDF within the DKW band; two-stage samplers (Beta, T) through Q×Q quantile-reduced stage scripts run on the real composite sampler; multiplication-method Poisson path-wise against the product-of-uniforms model on all scripts of depth 6 (7) over 8 letters; MVN draws must be mean + L·z exactly, single and bulk (rows of sample_n whitened with the exact factor must return the scripted normals); non-trivial = leaf reached through more than one draw");
     run.bound("DKW band", format!("{:.5}", eps));
     let cs = cases(run);
     cs.par_iter().for_each(|c| {
@@ -538,32 +589,48 @@ pub fn run(run: &Run) {
         })();
         judge_composed(run, "ChiSquared", "(1)".into(), "dof=1 (gamma shape<1)", res, &|x| chi2_cdf(1.0, x), (0.0, f64::INFINITY), eps);
     }
-    let comps: Vec<(f64, f64)> = vec![(2.0, 4.0), (1.0, 1.0), (5.0, 1.5), (0.5, 0.5), (0.2, 3.0)];
-    comps.par_iter().for_each(|&(a, b)| {
-        let bt = Beta::new(a, b);
+    // (the last two pairs are reached through the setters from another parameter pair: the cached
+    // generators must follow)
+    let comps: Vec<(f64, f64, bool)> = vec![(2.0, 4.0, false), (1.0, 1.0, false), (5.0, 1.5, false), (0.5, 0.5, false), (0.2, 3.0, false), (2.0, 4.0, true), (0.5, 3.0, true)];
+    comps.par_iter().for_each(|&(a, b, via)| {
+        let bt = if via {
+            let mut t = Beta::new(b + 0.75, a + 2.0);
+            t.set_alpha(a);
+            t.set_beta(b);
+            t
+        } else {
+            Beta::new(a, b)
+        };
         let regime = if a < 1.0 || b < 1.0 { "gamma shape<1" } else { "gamma shape>=1" };
         let res = (|| {
             let s1 = gamma_reps(run, a, 1.0, q)?;
             let s2 = gamma_reps(run, b, 1.0, q)?;
             compose(run, &[s1, s2], &move || bt.sample())
         })();
-        judge_composed(run, "Beta", format!("({}, {})", a, b), regime, res, &move |x| beta_cdf(a, b, x), (0.0, 1.0), eps);
+        judge_composed(run, "Beta", format!("({}, {}){}", a, b, if via { " reached through set_alpha, set_beta" } else { "" }), regime, res, &move |x| beta_cdf(a, b, x), (0.0, 1.0), eps);
     });
-    let nus = [1.0, 2.0, 5.0, 30.0];
-    nus.par_iter().for_each(|&nu| {
-        let (n, t) = (Normal::default(), T::new(nu));
+    let nus = [(1.0, false), (2.0, false), (5.0, false), (30.0, false), (5.0, true)];
+    nus.par_iter().for_each(|&(nu, via)| {
+        let t = if via {
+            let mut t = T::new(nu + 1.5);
+            t.set_dof(nu);
+            t
+        } else {
+            T::new(nu)
+        };
+        let n = Normal::default();
         let regime = if nu < 2.0 { "gamma shape<1" } else { "gamma shape>=1" };
         let res = (|| {
             let s1 = reps_of(run, "Normal(0, 1)", &move || n.sample(), decl(run, 1, 2, false), q)?;
             let s2 = gamma_reps(run, nu / 2.0, 1.0, q)?;
             compose(run, &[s1, s2], &move || t.sample())
         })();
-        judge_composed(run, "T", format!("({})", nu), regime, res, &move |x| t_cdf(nu, x), (f64::NEG_INFINITY, f64::INFINITY), eps);
+        judge_composed(run, "T", format!("({}){}", nu, if via { " reached through set_dof" } else { "" }), regime, res, &move |x| t_cdf(nu, x), (f64::NEG_INFINITY, f64::INFINITY), eps);
     });
     poisson_mult(run);
     mvn_affine(run);
     bulk(run);
-    for r in ["Normal:ziggurat", "Gamma:shape>=1", "Poisson:rate>=10 (PTRS)", "Binomial:BTPE", "Binomial:inversion", "Poisson:rate<10 (multiplication)", "MVN:affine", "Beta:gamma shape>=1", "T:gamma shape>=1", "Uniform:inverse-cdf"] {
+    for r in ["Normal:ziggurat", "Gamma:shape>=1", "Poisson:rate>=10 (PTRS)", "Binomial:BTPE", "Binomial:inversion", "Poisson:rate<10 (multiplication)", "MVN:affine", "MVN:bulk-affine", "Beta:gamma shape>=1", "T:gamma shape>=1", "Uniform:inverse-cdf"] {
         run.require_regime(r);
     }
     run.assume("what is decided is the sampler's law under an ideal generator on the stated partitions (the stronger statement); the statistical quality of alea's stream is not examined");
